@@ -462,6 +462,9 @@ class ExecExpr(ExecBase):
             yield st, z3.Exists([j], z3.And(rng, body))
             return
         if self.is_dict(container):
+            if not self.spec_mode:
+                self.oblige("safe", st, container.t != self.w.null, "dictionary is not None (`in None` raises TypeError)",
+                            name=self.next_call_id("none"))
             yield st, self.dict_has(st, container, x)
             return
         if isinstance(container, VDict):
@@ -573,7 +576,7 @@ class ExecExpr(ExecBase):
                 raise EngineError("lookup in an empty dict literal")
             return acc
         if self.is_dict(base):
-            self.oblige("safe", st, self.dict_has(st, base, idx), "dictionary key present (KeyError)", name=self.next_call_id("key"))
+            self.oblige("safe", st, self.dict_has(st, base, idx), "dictionary key present (KeyError; None is not subscriptable)", name=self.next_call_id("key"))
             return self.dict_index(st, base, idx)
         raise EngineError(f"subscript on {base}")
 
